@@ -5,8 +5,6 @@ from gverif.common import die
 from gverif.props.c12_common import norm_lines, norm_list
 
 TYPES = ["int", "list[str]", "Foo or None", "a.b.C"]
-READER_TO_FK = {"_read_parameter_type": "type", "_read_parameter": "param", "_read_attribute_type": "vartype", "_read_attribute": "var",
-                "_read_exception": "raises", "_read_return": "returns", "_read_return_type": "rtype"}
 
 
 def squash(text: str | None) -> str:
@@ -17,26 +15,21 @@ class Sphinx:
     style = "sphinx"
     module = "DocSphinx"
 
-    def __init__(self, griffe):
-        import _griffe.docstrings.sphinx as S  # noqa: PLC0415
+    ORDER = ["type", "param", "vartype", "var", "raises", "returns", "rtype"]     # DocSphinx.tla: first match wins (prefix match)
 
-        self.S = S
+    def __init__(self, griffe):
+        from gverif.props.c12_probe import probe_sphinx_fields  # noqa: PLC0415
+
         self.griffe = griffe
-        self.fields: dict = {}
-        order = []
-        for ft in S._field_types:
-            fk = READER_TO_FK.get(ft.reader.__name__)
-            if fk is None:
-                die(f"sphinx: unknown field reader {ft.reader.__name__} in the working tree")
-            self.fields[fk] = sorted(ft.names)
-            order.append(fk)
-        if order != ["type", "param", "vartype", "var", "raises", "returns", "rtype"]:
-            die(f"sphinx: _field_types order {order} differs from the order DocSphinx.tla assumes")
+        self.fields = probe_sphinx_fields(griffe)           # PROBED through the public parser at check time
+        missing = [fk for fk in self.ORDER if not self.fields.get(fk)]
+        if missing:
+            die(f"sphinx: the parser accepts no field name for {missing} (probed {self.fields})")
 
     def first_match(self, line: str):
-        for ft in self.S._field_types:
-            if ft.matches(line):
-                return READER_TO_FK[ft.reader.__name__]
+        for fk in self.ORDER:
+            if any(line.startswith(f":{name}") for name in self.fields[fk]):
+                return fk
         return None
 
     # ---- concretiser -----------------------------------------------------------------------------------------
@@ -128,7 +121,54 @@ class Sphinx:
                     out.append({"k": "field", "fk": fk, "sh": sh, "nm": nm})
         return out
 
+    # ---- behaviour of the real parser on one spelling (public API only) ---------------------------------------------
+    def behaves_as(self, ln: dict, p: dict) -> str | None:
+        D = self.griffe.Docstring
+        text, k = p["text"], ln["k"]
+
+        def parse(doc):
+            return D(doc).parse("sphinx")
+
+        if k == "blank":
+            return None if not text.strip() else "not blank"
+        if k in ("text", "other"):
+            secs = parse(f"{text}\nend")
+            ok = [s.kind.value for s in secs] == ["text"] and secs[0].value == f"{text}\nend"
+            return None if ok else f"parser gives {[(s.kind.value, s.value) for s in secs]}"
+        if k == "cont":        # consolidated into the field above, never a field itself
+            secs = parse(f"S.\n:returns: d\n{text}")
+            ok = [s.kind.value for s in secs] == ["text", "returns"] and secs[1].value[0].description == "d " + text.lstrip()
+            return None if ok else f"parser gives {[(s.kind.value, s.value if isinstance(s.value, str) else [e.description for e in s.value]) for s in secs]}"
+        fk, sh, nm = ln["fk"], ln["sh"], p.get("name")
+        main = {"param": "parameters", "var": "attributes", "raises": "raises", "returns": "returns"}
+        if fk in main:
+            secs = parse(f"S.\n{text}")
+            got = [s.kind.value for s in secs]
+            produces = (sh in ("name", "typed", "empty") if fk == "param" else sh in ("name", "empty") if fk in ("var", "raises") else sh != "open")
+            if got != (["text", main[fk]] if produces else ["text"]):
+                return f"parser gives {got}, class says {'a ' + main[fk] + ' section' if produces else 'nothing'}"
+            if produces:
+                el = secs[1].value[0]
+                if fk in ("param", "var") and el.name != nm:
+                    return f"name {el.name!r}, class says {nm!r}"
+                if fk == "raises" and str(el.annotation) != nm:
+                    return f"exception {el.annotation!r}, class says {nm!r}"
+                if fk == "param" and sh == "typed" and str(el.annotation) != p["inline"]:
+                    return f"annotation {el.annotation!r}, class says {p['inline']!r}"
+                if el.description != p["value"]:
+                    return f"description {el.description!r}, class says {p['value']!r}"
+            return None
+        # type fields: attach their value to the parameter / attribute / return value documented above
+        target = {"type": ":param x: d", "vartype": ":var x: d", "rtype": ":returns: d"}[fk]
+        secs = parse(f"S.\n{target}\n{text}")
+        el = secs[1].value[0]
+        applies = sh != "open" and (fk == "rtype" or (sh == "name" and nm == "x"))
+        want = p["value"].replace(" or ", " | ") if applies else None
+        got = None if el.annotation is None else str(el.annotation)
+        return None if got == want else f"annotation {got!r}, class says {want!r}"
+
     def check_classifier(self):
+        """Every spelling of every class classifies back to the class, and the PARSER (public API) treats it as that class."""
         n = 0
         for ln in self.long_alphabet():
             for v in range(12):
@@ -138,6 +178,10 @@ class Sphinx:
                     n += 1
                     if got != ln:
                         die(f"sphinx classifier: spelling {p['text']!r} of class {ln} classifies as {got}")
+                    if i == 3:
+                        diff = self.behaves_as(ln, p)
+                        if diff:
+                            die(f"sphinx classifier: the parser does not treat {p['text']!r} as class {ln}: {diff}")
         return n
 
     @staticmethod
